@@ -213,19 +213,28 @@ Definition exp_index_by_name (s : image_spec) (name : list Z) : option Z :=
 
 (* ------------------------------------------------------------------ layout predicates *)
 (* the bytes [bs] sit at offset [off] of [img] *)
+Fixpoint prefix_eqb (bs l : list Z) : bool :=
+  match bs, l with
+  | [], _ => true
+  | x :: bs', y :: l' => (x =? y) && prefix_eqb bs' l'
+  | _ :: _, [] => false
+  end.
 Definition at_ (img : list Z) (off : Z) (bs : list Z) : bool :=
-  (0 <=? off) && bytes_eqb (slice img (Z.to_nat off) (length bs)) bs.
+  (0 <=? off) && prefix_eqb bs (skipn (Z.to_nat off) img).
+
+(* consecutive table entries: record i sits at i * stride from the start of [l]
+   (one pass over the table; Proofs/C01Proofs.v table_at_nth gives the pointwise reading
+   "record i sits at offset start + i * stride") *)
+Fixpoint table_at (l : list Z) (stride : nat) (recs : list (list Z)) : bool :=
+  match recs with
+  | [] => true
+  | r :: t => prefix_eqb r l && table_at (skipn stride l) stride t
+  end.
 
 (* a record of layout L can be read at [off] *)
 Definition readable (img : list Z) (off : Z) (L : layout) : bool :=
   (0 <=? off) && (off <? zlen img) &&
   match decode_layout L (skipn (Z.to_nat off) img) with Some _ => true | None => false end.
-
-Fixpoint forall_idx {A} (p : Z -> A -> bool) (i : Z) (l : list A) : bool :=
-  match l with
-  | [] => true
-  | x :: t => p i x && forall_idx p (i + 1) t
-  end.
 
 Definition zero_shdr : shdr_spec :=
   {| sh_name := 0; sh_type := 0; sh_flags := 0; sh_addr := 0; sh_offset := 0; sh_size := 0;
@@ -241,22 +250,20 @@ Definition ehdr_ok (img : list Z) (s : image_spec) : bool :=
   fits_layout (L_ehdr s) (ehdr_vals s) && at_ img 0 (encode_ehdr s).
 
 (* ---- section header i sits at e_shoff + i * e_shentsize; e_shentsize >= the standard size *)
-Definition shdr_at (img : list Z) (s : image_spec) (i : Z) (h : shdr_spec) : bool :=
-  fits_layout (L_shdr s) (shdr_vals h) &&
-  at_ img (e_shoff (i_ehdr s) + i * e_shentsize (i_ehdr s)) (encode_shdr s h).
 Definition sections_ok (img : list Z) (s : image_spec) : bool :=
   (n_sections s =? 0) ||
-  ((shdr_size s <=? e_shentsize (i_ehdr s)) &&
-   forall_idx (fun i x => shdr_at img s i (snd x)) 0 (i_sections s)).
+  ((shdr_size s <=? e_shentsize (i_ehdr s)) && (0 <=? e_shoff (i_ehdr s)) &&
+   forallb (fun x => fits_layout (L_shdr s) (shdr_vals (snd x))) (i_sections s) &&
+   table_at (skipn (Z.to_nat (e_shoff (i_ehdr s))) img) (Z.to_nat (e_shentsize (i_ehdr s)))
+            (map (fun x => encode_shdr s (snd x)) (i_sections s))).
 
 (* ---- program header j sits at e_phoff + j * e_phentsize; e_phentsize >= the standard size *)
-Definition phdr_at (img : list Z) (s : image_spec) (j : Z) (p : phdr_spec) : bool :=
-  fits_layout (L_phdr s) (phdr_vals (i_is64 s) p) &&
-  at_ img (e_phoff (i_ehdr s) + j * e_phentsize (i_ehdr s)) (encode_phdr s p).
 Definition segments_ok (img : list Z) (s : image_spec) : bool :=
   (n_segments s =? 0) ||
-  ((phdr_size s <=? e_phentsize (i_ehdr s)) &&
-   forall_idx (fun j p => phdr_at img s j p) 0 (i_segments s)).
+  ((phdr_size s <=? e_phentsize (i_ehdr s)) && (0 <=? e_phoff (i_ehdr s)) &&
+   forallb (fun p => fits_layout (L_phdr s) (phdr_vals (i_is64 s) p)) (i_segments s) &&
+   table_at (skipn (Z.to_nat (e_phoff (i_ehdr s))) img) (Z.to_nat (e_phentsize (i_ehdr s)))
+            (map (encode_phdr s) (i_segments s))).
 
 (* ---- counts and the name-table index, with the three extended-numbering escapes
         (gABI: e_shnum / e_phnum / e_shstrndx).  SHN_LORESERVE = 0xff00, PN_XNUM = SHN_XINDEX = 0xffff.
